@@ -29,6 +29,11 @@ pub enum FamId {
     Nano,
     /// the toy scheme with a 64-byte public key (long-form RLP string header) and 64-byte signatures
     Big,
+    /// the toy scheme (4-byte key, 6-byte signature) whose `enr_key()` COLLIDES with a reserved name: the
+    /// public key is stored under `ip6`, where it is not a well-typed address.  Not in `ALL_FAMS`: used
+    /// by C14 only (typed accessors / reachability flags against the raw content); such records are
+    /// rejected by the decoder, which is outside every other property's domain
+    Clash,
 }
 pub const BUILTIN_FAMS: [FamId; 5] = [FamId::K256, FamId::Libsecp, FamId::Ed, FamId::CombinedSecp, FamId::CombinedEd];
 pub const ALL_FAMS: [FamId; 11] = [
@@ -48,7 +53,7 @@ pub const ALL_FAMS: [FamId; 11] = [
 impl FamId {
     /// the toy scheme (public key under "t")
     pub fn is_toy(self) -> bool {
-        matches!(self, FamId::Tiny | FamId::Mid | FamId::Nano | FamId::Big)
+        matches!(self, FamId::Tiny | FamId::Mid | FamId::Nano | FamId::Big | FamId::Clash)
     }
     pub fn scheme(self) -> Scheme {
         match self {
@@ -62,12 +67,13 @@ impl FamId {
             FamId::Libsecp => Some(KeyType::Libsecp),
             FamId::Ed => Some(KeyType::Ed),
             FamId::CombinedSecp | FamId::CombinedEd => Some(KeyType::Combined),
-            FamId::Var | FamId::Wide | FamId::Tiny | FamId::Mid | FamId::Nano | FamId::Big => None,
+            FamId::Var | FamId::Wide | FamId::Tiny | FamId::Mid | FamId::Nano | FamId::Big | FamId::Clash => None,
         }
     }
     /// name of the public-key entry this family stores
     pub fn key_name(self) -> &'static [u8] {
         match self {
+            FamId::Clash => b"ip6",
             f if f.is_toy() => b"t",
             f => f.scheme().key_name(),
         }
@@ -85,13 +91,14 @@ impl FamId {
             FamId::Mid => "midkey",
             FamId::Nano => "nanokey",
             FamId::Big => "bigkey",
+            FamId::Clash => "clashkey",
         }
     }
     /// length of signatures of this family, None = variable
     pub fn fixed_sig_len(self) -> Option<usize> {
         match self {
             FamId::Var | FamId::Wide | FamId::Mid => None,
-            FamId::Tiny => Some(6),
+            FamId::Tiny | FamId::Clash => Some(6),
             FamId::Nano => Some(1),
             _ => Some(64),
         }
@@ -140,7 +147,19 @@ pub type LibsecpKey = secp256k1::SecretKey;
 #[cfg(not(feature = "libsecp"))]
 pub type LibsecpKey = k256::ecdsa::SigningKey;
 /// name of the library build configuration this binary checks
-pub const BUILD_CONFIG: &str = if cfg!(feature = "libsecp") { "all-features, overflow checks and debug assertions on, log level Trace" } else { "plain release: without rust-secp256k1, overflow checks and debug assertions off, no logger" };
+pub const BUILD_CONFIG: &str = match (cfg!(feature = "libsecp"), !cfg!(feature = "plainprofile")) {
+    (true, true) => "main: all features, overflow checks and debug assertions on, log level Trace",
+    (true, false) => "plain-all: release profile (no debug assertions / overflow checks), all features, no logger",
+    (false, false) => "plain: release profile (no debug assertions / overflow checks), without rust-secp256k1, no logger",
+    (false, true) => "without rust-secp256k1, debug assertions on",
+};
+/// short tag of the configuration (file names)
+pub const BUILD_TAG: &str = match (cfg!(feature = "libsecp"), !cfg!(feature = "plainprofile")) {
+    (true, true) => "main",
+    (true, false) => "plain-all",
+    (false, false) => "plain",
+    (false, true) => "nolibsecp-debug",
+};
 
 #[cfg(feature = "libsecp")]
 impl Fam for secp256k1::SecretKey {
@@ -327,7 +346,7 @@ pub fn mid_len(msg: &[u8]) -> usize {
 }
 /// public key bytes as stored under "t": 4 bytes (Tiny, Mid), 1 byte below 0x80 (Nano), 64 bytes (Big)
 #[derive(Clone, Debug)]
-pub struct TinyPub(pub Vec<u8>);
+pub struct TinyPub(pub Vec<u8>, pub bool /* stored under `ip6` (family Clash) */);
 
 pub fn tiny_pk(secret: &[u8; 32]) -> [u8; 4] {
     let h = keccak256(&[b"tiny-pk".as_ref(), secret].concat());
@@ -387,18 +406,21 @@ impl EnrKey for TinyKey {
         Ok(toy_sign(self.1, &toy_pk(self.1, &self.0), msg))
     }
     fn public(&self) -> TinyPub {
-        TinyPub(toy_pk(self.1, &self.0))
+        TinyPub(toy_pk(self.1, &self.0), self.1 == FamId::Clash)
     }
     fn enr_to_public(
         content: &std::collections::BTreeMap<Vec<u8>, bytes::Bytes>,
     ) -> Result<TinyPub, alloy_rlp::Error> {
-        let raw = content.get(&b"t"[..]).ok_or(alloy_rlp::Error::Custom("no key"))?;
+        let (raw, clash) = match content.get(&b"t"[..]) {
+            Some(r) => (r, false),
+            None => (content.get(&b"ip6"[..]).ok_or(alloy_rlp::Error::Custom("no key"))?, true),
+        };
         let it = crate::refmodel::rlp::decode_exact(raw).map_err(|_| alloy_rlp::Error::Custom("bad rlp"))?;
         let b = it.as_str().ok_or(alloy_rlp::Error::Custom("not a string"))?;
         if !(b.len() == 4 || b.len() == 64 || (b.len() == 1 && b[0] < 0x80)) {
             return Err(alloy_rlp::Error::Custom("bad key length"));
         }
-        Ok(TinyPub(b.to_vec()))
+        Ok(TinyPub(b.to_vec(), clash))
     }
 }
 impl EnrPublicKey for TinyPub {
@@ -414,7 +436,11 @@ impl EnrPublicKey for TinyPub {
         self.0.clone()
     }
     fn enr_key(&self) -> Vec<u8> {
-        b"t".to_vec()
+        if self.1 {
+            b"ip6".to_vec()
+        } else {
+            b"t".to_vec()
+        }
     }
 }
 impl Fam for TinyKey {
